@@ -61,43 +61,64 @@ def parseSheet (toks : List String) : Option Sheet :=
     | _ => none
   | _ => none
 
-/-- parses children until `)`; `next` is the next document-order index -/
-def parseKids : Nat → List String → Nat → List Node → Option (List Node × Nat × List String)
-  | 0, _, _, _ => none
-  | _, [], _, _ => none
-  | fuel + 1, tok :: rest, next, acc =>
+/-- element name token: `#` (document) | `uri|local` | `uri|local|p` (xml:space="preserve") | `uri|local|d` (other value).
+Returns the name and the element's own `xml:space` attribute. -/
+def parseElemName (nm : String) : Option (Option QName × Option Bool) :=
+  if nm = "#" then some (none, none) else
+  match nm.splitOn "|" with
+  | [u, l] => some (some ⟨u, l⟩, none)
+  | [u, l, "p"] => some (some ⟨u, l⟩, some true)
+  | [u, l, "d"] => some (some ⟨u, l⟩, some false)
+  | _ => none
+
+/-- parses children until `)`; `next` is the next document-order index; `eff` is the xml:space state in force
+at the parent (handed down like `inheritSpace`) -/
+def parseKids : Nat → Bool → List String → Nat → List Node → Option (List Node × Nat × List String)
+  | 0, _, _, _, _ => none
+  | _, _, [], _, _ => none
+  | fuel + 1, eff, tok :: rest, next, acc =>
     if tok = ")" then some (acc.reverse, next, rest)
     else if tok = "(" then
       match rest with
       | nm :: rest1 =>
-        let name : Option (Option QName) :=
-          if nm = "#" then some none else (splitBar nm).map fun (u, l) => some ⟨u, l⟩
-        match name with
+        match parseElemName nm with
         | none => none
-        | some n =>
-          match parseKids fuel rest1 (next + 1) [] with
-          | some (kids, next', rest2) => parseKids fuel rest2 next' (.elem next n kids :: acc)
+        | some (name, own) =>
+          let eff' := inheritSpace eff own
+          -- attribute tokens `@uri|local=hex` directly after the name
+          let attrToks := rest1.takeWhile (·.startsWith "@")
+          let rest1 := rest1.dropWhile (·.startsWith "@")
+          let attrs : List (QName × String) := attrToks.filterMap fun t =>
+            match (t.drop 1).toString.splitOn "=" with
+            | [nm, h] =>
+              match splitBar nm, strOfHex h with
+              | some (u, l), some v => some (⟨u, l⟩, v)
+              | _, _ => none
+            | _ => none
+          let tag : Option Tag := name.map fun q => ⟨q, eff', attrs⟩
+          match parseKids fuel eff' rest1 (next + 1) [] with
+          | some (kids, next', rest2) => parseKids fuel eff rest2 next' (.elem next tag kids :: acc)
           | none => none
       | [] => none
     else if tok.startsWith "T" then
       match strOfHex (tok.drop 1).toString with
-      | some d => parseKids fuel rest (next + 1) (.text next d :: acc)
+      | some d => parseKids fuel eff rest (next + 1) (.text next d :: acc)
       | none => none
     else if tok.startsWith "C" then
       match strOfHex (tok.drop 1).toString with
-      | some d => parseKids fuel rest (next + 1) (.comment next d :: acc)
+      | some d => parseKids fuel eff rest (next + 1) (.comment next d :: acc)
       | none => none
     else if tok.startsWith "P" then
       match splitBar (tok.drop 1).toString with
       | some (t, h) =>
         match strOfHex h with
-        | some d => parseKids fuel rest (next + 1) (.pi next t d :: acc)
+        | some d => parseKids fuel eff rest (next + 1) (.pi next t d :: acc)
         | none => none
       | none => none
     else none
 
 def parseDoc (toks : List String) : Option Node :=
-  match parseKids (toks.length + 1) (toks ++ [")"]) 0 [] with
+  match parseKids (toks.length + 1) false (toks ++ [")"]) 0 [] with
   | some ([n], _, []) => some n
   | _ => none
 
@@ -155,6 +176,13 @@ def parseExpr : Nat → List String → Option (Expr × List String)
     | "union" => bin .union
     | "filter" => bin .filter
     | "normalize-space" => un .normalizeSpace
+    | "attr-count" => un .attrCount
+    | "attr-of" => match rest with
+      | nm :: r =>
+        match splitBar nm, parseExpr fuel r with
+        | some (u, l), some (e, r2) => some (.attrOf e ⟨u, l⟩, r2)
+        | _, _ => none
+      | [] => none
     | "num" => match rest with
       | n :: r => n.toInt?.map fun k => (.num k, r)
       | [] => none
@@ -184,10 +212,10 @@ def splitSemi (toks : List String) : List (List String) :=
 
 mutual
 /-- strip decision of every text node, document order -/
-def bitsNode (f : Option QName → String → Bool) : Node → List Bool
+def bitsNode (f : Option Tag → String → Bool) : Node → List Bool
   | .elem _ n kids => bitsKids f n kids
   | _ => []
-def bitsKids (f : Option QName → String → Bool) (pn : Option QName) : List Node → List Bool
+def bitsKids (f : Option Tag → String → Bool) (pn : Option Tag) : List Node → List Bool
   | [] => []
   | k :: ks =>
     (match k with
@@ -278,10 +306,31 @@ def doNumber (sheet doc c f : List String) : String :=
       let nodes := root.descendants.filter fun l => Test.accepts sp .text l || Test.accepts sp .anyElem l
       let out := String.join (nodes.map fun l =>
         let k := numberAny sp countT fromT fuel l
-        (if k = 0 then "" else toString k) ++ "|")
+        -- without `from` the walk must compute the Recommendation's count (Props.C13.number_any_nofrom_loop_eq_count;
+        -- kept as a run-time cross-check of the two executable definitions)
+        let chk := if fromT.isNone && k != numberAnySpec sp countT l then "SIM-DIFFERS(loop/spec)" else ""
+        chk ++ (if k = 0 then "" else toString k) ++ "|")
       "S" ++ hexOfStr out
     | _, _ => "bad"
   | _, _, _, _ => "bad"
+
+/-- `<xsl:for-each select="//text()|//*"><xsl:number level="single|multiple" count="c" [from="f"]/>|</xsl:for-each>` -/
+def doNumberSM (sheet doc c f lvl : List String) : String :=
+  match parseSheet sheet, parseDoc doc, c, f, lvl with
+  | some s, some d, [ct], [ft], [lv] =>
+    let fromT : Option (Option Test) := if ft = "none" then some none else (parseTest ft).map some
+    match parseTest ct, fromT with
+    | some countT, some fromT =>
+      let sp := stripOf s.post
+      let root : Loc := ⟨d, []⟩
+      let nodes := root.descendants.filter fun l => Test.accepts sp .text l || Test.accepts sp .anyElem l
+      let out := String.join (nodes.map fun l =>
+        let a := numberList sp countT fromT (lv == "single") l
+        let b := numberList noStrip countT fromT (lv == "single") (l.strip sp)
+        (if a == b then "" else "SIM-DIFFERS") ++ ".".intercalate (a.map toString) ++ "|")
+      "S" ++ hexOfStr out
+    | _, _ => "bad"
+  | _, _, _, _, _ => "bad"
 
 def step (s : Unit) : List String → Unit × String
   | "strip" :: _ :: rest =>
@@ -307,6 +356,10 @@ def step (s : Unit) : List String → Unit × String
   | "stripx" :: _ :: rest =>
     match splitSemi rest with
     | [sheet, doc] => (s, doStrip sheet doc)
+    | _ => (s, "bad")
+  | "numbersm" :: _ :: rest =>
+    match splitSemi rest with
+    | [sheet, doc, c, f, lvl] => (s, doNumberSM sheet doc c f lvl)
     | _ => (s, "bad")
   | "xform" :: _ => (s, "-")
   | "xformx" :: _ => (s, "-")
